@@ -162,6 +162,17 @@ def fbGetterS (area : Bytes) (fbG : Res (Option View)) : Obs :=
       | .ok (.ok _) => t (s!"@{8 + v.off}:{v.sov}" ++ "{") ++ fbS (v.bytes area) v ++ t "}")
    | .panic => t "P" | .oob => [.oob] | .ub => [.ub]) ++ t ";"
 
+/-- `module_tags()` drained -/
+def modulesS (area : Bytes) (mods : List View × End) : Obs :=
+  t "modules=[" ++ (mods.1.map fun v => moduleS (v.bytes area) v).flatten ++ endS mods.2 ++ t ";"
+
+def elfSectionsGetterS (area : Bytes) (elfG : Res (Option View)) : Obs :=
+  t "elf_sections=" ++
+    (match elfG with
+     | .ok none => t "-"
+     | .ok (some v) => elfSectionsS (v.bytes area) v
+     | .panic => t "P" | .oob => [.oob] | .ub => [.ub]) ++ t ";"
+
 /-- the whole sweep of a loaded region `R` (declared size = `R.length`) -/
 def sweepLoaded (p : Profile) (R : Bytes) : Obs :=
   let area := R.drop 8
@@ -174,14 +185,10 @@ def sweepLoaded (p : Profile) (R : Bytes) : Obs :=
   -- framebuffer_tag(): get_tag + buffer_type()
   let fbG := g .fb
   let mods := moduleViews p area
-  let modS := t "modules=[" ++ (mods.1.map fun v => moduleS (ext v) v).flatten ++ endS mods.2 ++ t ";"
+  let modS := modulesS area mods
   -- deprecated elf_sections()
   let elfG := g .elf
-  let elfSecs := t "elf_sections=" ++
-    (match elfG with
-     | .ok none => t "-"
-     | .ok (some v) => elfSectionsS (ext v) v
-     | .panic => t "P" | .oob => [.oob] | .ub => [.ub]) ++ t ";"
+  let elfSecs := elfSectionsGetterS area elfG
   -- Debug: panics iff the walk is bad, a getter panics, or one of the Debug impls that call checked accessors panics
   let getters := [g .apm, g .meminfo, g .loader, g .bootdev, g .cmdline, g .efiBs, g .efiIh32, g .efiIh64, efiG,
                   g .efiSdt32, g .efiSdt64, elfG, fbG, g .loadBase, g .mmap, g .network, g .rsdp1, g .rsdp2, g .smbios, g .vbe]
